@@ -22,7 +22,6 @@ Print Assumptions C10_hof_holds_smallest_keys.
       any similarity function, any capacity *)
 Theorem C10_any_history_ordered_nan_free_fresh :
   forall sim pareto c (base : nat) (ops : list op),
-  Forall op_ok ops ->
   let h := run sim pareto c base ops in
   err h = false ->
   keys h = map ek1 (items h) /\
@@ -54,20 +53,26 @@ Theorem C10_pareto_no_two_similar :
 Proof. exact C10_pareto_sim. Qed.
 Print Assumptions C10_pareto_no_two_similar.
 
-(* Full-strength NaN clause ("never holds a NaN key", also under manual insert) is
-   refuted on the faithful model: finding F12a. *)
-Definition nan_i := mkI 2 None None.
-Theorem C10_nan_clause_under_insert_refuted :
-  exists ops, let h := run None false (Some 3%nat) 10 ops in
-              err h = false /\ In None (keys h).
-Proof.
-  exists [OInsert (mkI 0 (Some 1) None); OInsert (mkI 1 (Some 2) None); OInsert nan_i].
-  vm_compute. split; [reflexivity|]. right; right; left; reflexivity.
-Qed.
-(* capacity 0: update raises IndexError: finding F12b. *)
-Theorem C10_capacity_zero_raises :
-  err (run None false (Some 0%nat) 10 [OUpdate [mkI 0 (Some 1) None]]) = true.
-Proof. vm_compute. reflexivity. Qed.
+(* 5. the public insert ignores an individual whose key is NaN (finding F12a, fixed): with theorem 2, which no longer needs any
+      premise about manual inserts, no history of updates / inserts / removes / clears ever leaves a NaN key in the hall *)
+Theorem C10_insert_ignores_nan_keys :
+  forall h i, ik1 i = None -> insert_pub h i = h.
+Proof. exact insert_pub_nan. Qed.
+Print Assumptions C10_insert_ignores_nan_keys.
+
+(* 6. capacity 0 (finding F12b, fixed): the hall stays empty and nothing raises *)
+Theorem C10_capacity_zero_stays_empty :
+  forall sim (base : nat) (ops : list op), only_updates ops ->
+  let h := run sim false (Some 0%nat) base ops in err h = false /\ keys h = [] /\ items h = [].
+Proof. exact C10_capacity_zero. Qed.
+Print Assumptions C10_capacity_zero_stays_empty.
+
+(* the histories that used to refute the two clauses *)
+Example C10_former_refutations :
+  keys (run None false (Some 3%nat) 10 [OInsert (mkI 0 (Some 1) None); OInsert (mkI 1 (Some 2) None); OInsert (mkI 2 None None)])
+    = [Some 1; Some 2] /\
+  err (run None false (Some 0%nat) 10 [OUpdate [mkI 0 (Some 1) None]]) = false.
+Proof. vm_compute. split; reflexivity. Qed.
 
 (* non-vacuity: a history meeting the hypotheses of 1, with an eviction, a tie and a NaN *)
 Example C10_example :
